@@ -23,3 +23,8 @@ Fixpoint hx_go (len : N) (ws : list int) : bytes :=
   end.
 
 Definition hx (len : N) (ws : list int) : bytes := hx_go len ws.
+Arguments hx _%N _%uint63.
+
+(** [HX len [w1; ..; wk]] — the words are read in [uint63_scope] whatever scopes are open *)
+Notation "'HX' n [ x ; .. ; y ]" :=
+  (hx n (cons x%uint63 .. (cons y%uint63 nil) ..)) (at level 0, n at level 0).
